@@ -217,6 +217,23 @@ def _one(idx):
                 if abs(pot.force(x) - want) > 1e-9 * max(1.0, abs(want)):
                     bad.append(("derivative-from-other-range", "r=%s: energy from range #%d but force=%r (that range gives %r)" % (x, rid, pot.force(x), want), "potable"))
                     break
+            if not bad:
+                # the listing as the only argument of a modifier written WITHOUT a leading marker: the modifier acts for r > 0 only,
+                # there it is the listing's own function
+                lst = text.split("A-B : ", 1)[1].split("\n", 1)[0]
+                inner = lst if lst.lstrip().startswith(">") else ">0 " + lst
+                wtext = "[Tabulation]\ntarget : LAMMPS\nnr : 5\ncutoff : 4.0\n\n[Pair]\nA-B : %s\nA-C : %s(%s, as.zero)\n" % (lst, ("sum", "sum", "pow")[idx % 3] if False else "sum", inner)
+                wtab = Configuration().read(io.StringIO(wtext))
+                wp = {(p.speciesA, p.speciesB): p.potentialFunction for p in wtab.potentials}
+                for x in xs_of(case):
+                    out["queries"] += 1
+                    want = wp[("A", "B")](x) if x > 0 else 0.0
+                    got = wp[("A", "C")](x)
+                    if abs(got - want) > 1e-9 * max(1.0, abs(want)):
+                        bad.append(("default-range", "r=%s: 'sum(%s, as.zero)' written without a leading range marker gives %r; it acts for r > 0 only, where it is the function of its argument (%r)" % (
+                            x, inner, got, want), "potable"))
+                        text = wtext
+                        break
             if not bad and idx % 2 == 0:
                 # the same listing as embedding and as density function of an EAM model: what a range marker means (and that a
                 # definition without a leading marker acts above 0 only) does not depend on the section
